@@ -26,7 +26,8 @@ import (
 // (2) negotiation: a real unstarted node per local list (and one without a "pv" entry) x
 //     peer record advertising each list / no entry / 4 malformed entries, asked twice and
 //     once more after the cache TTL on the virtual clock, the oracle applied to every call;
-// (3) consumers: every ordered pairing of the supported lists {0},{1},{0,1},{1,0} x
+// (3) consumers: every ordered pairing of the lists {0},{1},{0,1},{1,0} and six lists naming
+//     versions above 1 ({2},{1,2},{2,1,0},{0,2},{255,1},{255,2}; cross-side clauses only) x
 //     content sizes {0,1,5000} through encodeUtpContent on one side and decodeUtpContent on
 //     the other, and x every key-class vector of length <= 3 (+ two 9-key vectors) through
 //     the ACCEPT encoding of one side and the ACCEPT parsing of the other.
@@ -273,6 +274,12 @@ func c19RunNegotiate(r *mc.Report, e *Env) {
 
 var c19Supported = [][]uint8{{0}, {1}, {0, 1}, {1, 0}}
 
+// c19Future: lists that also name versions above 1. Two sides that negotiate such a version
+// must still agree with each other: what the statement fixes for it is that the same version
+// governs both consumers on both sides, so only the cross-side clauses are judged (B decodes
+// what A framed; A reads B's verdicts), not the concrete byte layout.
+var c19Future = [][]uint8{{2}, {1, 2}, {2, 1, 0}, {0, 2}, {255, 1}, {255, 2}}
+
 // c19Pair: side A (versions a) offers / sends to side B (versions b). B stores the
 // 's' keys, advertises a radius of half the id space, and derives content ids as the key.
 type c19Pair struct {
@@ -352,7 +359,7 @@ func c19Framing(r *mc.Report, p *c19Pair, c c19Case) {
 		want = framed
 	}
 	switch {
-	case eerr != nil || !bytes.Equal(enc, want):
+	case eerr != nil || (v <= 1 && !bytes.Equal(enc, want)): // above version 1 the layout is not fixed by the statement: round trip only
 		r.Violation("framing-follows-negotiated-version", "encodeUtpContent", fmt.Sprintf("A %v -> B %v (version %d), %d bytes: got %s err=%v, want %s", c.A, c.B, v, c.Size, hx(enc), eerr, hx(want)), c)
 	case derr != nil || !bytes.Equal(dec, x):
 		r.Violation("framing-round-trips-between-sides", "decodeUtpContent", fmt.Sprintf("A %v -> B %v (version %d), %d bytes: B decodes %s err=%v", c.A, c.B, v, c.Size, hx(dec), derr), c)
@@ -411,12 +418,16 @@ func c19Accept(r *mc.Report, p *c19Pair, c c19Case) {
 			return
 		}
 		mine, _, err := p.B.P.VerifFilterContentKeys(offer, vB)
+		if err != nil && v > 1 {
+			digest = fmt.Sprintf("accept:v%d:refused-by-B", v) // a version this build does not implement: an error and no transfer
+			return
+		}
 		if err != nil {
 			flag(true, "accept-encoding-follows-negotiated-version", "filterContentKeys", err.Error())
 			return
 		}
 		_, isV1 := mine.(*portalwire.AcceptV1)
-		flag(isV1 != (v == 1), "accept-encoding-follows-negotiated-version", "filterContentKeys", fmt.Sprintf("version %d encoded as %T", v, mine))
+		flag(v <= 1 && isV1 != (v == 1), "accept-encoding-follows-negotiated-version", "filterContentKeys", fmt.Sprintf("version %d encoded as %T", v, mine))
 		if mine.GetKeyLength() != len(keys) || !slices.Equal(mine.GetAcceptIndices(), fresh) {
 			r.Count("model_drift", 1) // which keys B wants is C09's business
 		}
@@ -437,6 +448,10 @@ func c19Accept(r *mc.Report, p *c19Pair, c c19Case) {
 		}
 		// A's side: what it reads out of that ACCEPT
 		theirs, err := p.A.P.VerifParseOfferResp(p.recB, ssz)
+		if err != nil && v > 1 {
+			digest = fmt.Sprintf("accept:v%d:refused-by-A", v)
+			return
+		}
 		if err != nil {
 			flag(true, "accept-decodes-to-the-same-verdicts", "parseOfferResp", fmt.Sprintf("ACCEPT %s (version %d): %v", hx(ssz), v, err))
 			return
@@ -482,8 +497,9 @@ func c19KeyVectors() []string {
 
 func c19RunConsumers(r *mc.Report, e *Env) {
 	vectors := c19KeyVectors()
-	for _, a := range c19Supported {
-		for _, b := range c19Supported {
+	lists := append(slices.Clone(c19Supported), c19Future...)
+	for _, a := range lists {
+		for _, b := range lists {
 			if e.Expired() {
 				return
 			}
@@ -497,7 +513,7 @@ func c19RunConsumers(r *mc.Report, e *Env) {
 			p.close()
 		}
 	}
-	r.Count("consumer_pairings", int64(len(c19Supported)*len(c19Supported)))
+	r.Count("consumer_pairings", int64(len(lists)*len(lists)))
 	r.Count("key_vectors_per_pairing", int64(len(vectors)))
 	r.Sample(c19Case{Part: "framing", A: []int{0, 1}, B: []int{0}, Size: 5000})
 	r.Sample(c19Case{Part: "accept", A: []int{1}, B: []int{0, 1}, Keys: "sfo"})
